@@ -14,6 +14,12 @@ Proof. exact surface_classified. Qed.
 Print Assumptions C17_surface_classified.
 
 (** the implementations of the guard functions are the reviewed ones *)
+(** the contract objects registered at start-up are created without any field set (in particular the registered
+    InterchainManager has no service cache: what keeps the unguarded IBTP entry points unreachable) *)
+Theorem C17_registered_objects_plain : registered_plain_b = true.
+Proof. exact registered_plain. Qed.
+Print Assumptions C17_registered_objects_plain.
+
 Theorem C17_guard_impls_pinned : guard_impls_pinned_b = true.
 Proof. exact guard_impls_pinned. Qed.
 Print Assumptions C17_guard_impls_pinned.
@@ -161,6 +167,26 @@ Theorem C17_unguarded_fixed :
              match invoke std_body cfg_fixed [] (snd p) with (Fail e, []) => (e =? E_NO_PERMISSION)%N | _ => false end) unguarded_calls = true.
 Proof. exact unguarded_fixed. Qed.
 Print Assumptions C17_unguarded_fixed.
+
+(** PermissionSelf on a service is decided by the appchain in the STORED record: the caller passes iff it is the
+    admin of that appchain, whatever separator characters the ids contain; reading the appchain off the id (text
+    before the first ':') agrees for appchain ids without ':' and is refuted otherwise *)
+Theorem C17_self_by_stored_chain : forall recs admins sid ch caller,
+  alookup String.eqb sid recs = Some ch ->
+  (passes_self false recs admins sid caller = true <-> alookup String.eqb ch admins = Some caller).
+Proof. exact self_by_stored_chain. Qed.
+Print Assumptions C17_self_by_stored_chain.
+Theorem C17_self_by_segment_agrees : forall recs admins ch svc caller,
+  has_colon ch = false -> alookup String.eqb (ch ++ ":" ++ svc) recs = Some ch ->
+  passes_self true recs admins (ch ++ ":" ++ svc) caller = passes_self false recs admins (ch ++ ":" ++ svc) caller.
+Proof. exact self_by_segment_agrees. Qed.
+Theorem C17_self_by_segment_refuted :
+  let recs := [("org:chainB:svc2", "org:chainB")] in
+  let admins := [("org", 1%N); ("org:chainB", 2%N)] in
+  (passes_self true recs admins "org:chainB:svc2" 1 = true /\ passes_self true recs admins "org:chainB:svc2" 2 = false) /\
+  (passes_self false recs admins "org:chainB:svc2" 1 = false /\ passes_self false recs admins "org:chainB:svc2" 2 = true).
+Proof. exact self_by_segment_refuted. Qed.
+Print Assumptions C17_self_by_segment_refuted.
 
 (** non-vacuity *)
 Example C17_internal_example :
